@@ -116,6 +116,13 @@ class PyLower:
             b = self.expr(e.orelse, env, depth)
             if a == b:
                 return a
+            t_ = e.test
+            if isinstance(t_, ast.Compare) and len(t_.ops) == 1 and type(t_.ops[0]) in _PYOPS:
+                from .normal import piecewise as _pw
+
+                pw_ = _pw([((_PYOPS[type(t_.ops[0])], self.expr(t_.left, env, depth), self.expr(t_.comparators[0], env, depth)), a)], b)
+                if pw_ is not None:
+                    return pw_
             return Poly.atom(("ite", src_of(e.test), a, b))
         return opaque(src_of(e))
 
